@@ -359,7 +359,7 @@ func genOsfs(r *repo, o *out) {
 			if !ok || fd.Recv == nil || fd.Body == nil {
 				continue
 			}
-			var resolveLast string
+			var resolveLast []string
 			var host []string
 			ast.Inspect(fd.Body, func(n ast.Node) bool {
 				ce, ok := n.(*ast.CallExpr)
@@ -368,7 +368,7 @@ func genOsfs(r *repo, o *out) {
 				}
 				if se, ok := ce.Fun.(*ast.SelectorExpr); ok {
 					if se.Sel.Name == "realpath" && len(ce.Args) == 2 {
-						resolveLast = r.src(ce.Args[1])
+						resolveLast = append(resolveLast, r.src(ce.Args[1]))
 					}
 					if id, ok := se.X.(*ast.Ident); ok && (id.Name == "os" || id.Name == "syscall" || id.Name == "unix") {
 						switch se.Sel.Name {
@@ -380,14 +380,14 @@ func genOsfs(r *repo, o *out) {
 				}
 				return true
 			})
-			if resolveLast == "" || !ast.IsExported(fd.Name.Name) {
+			if len(resolveLast) == 0 || !ast.IsExported(fd.Name.Name) {
 				continue
 			}
-			rows = append(rows, fmt.Sprintf("(%s, %s, %s)", leanStr(fd.Name.Name), leanStr(resolveLast), leanStrList(uniqSorted(host))))
+			rows = append(rows, fmt.Sprintf("(%s, %s, %s)", leanStr(fd.Name.Name), leanStrList(resolveLast), leanStrList(uniqSorted(host))))
 		}
 	}
 	sort.Strings(rows)
-	o.def("osfsMethods", "List (String × String × List String)", "[\n  "+strings.Join(rows, ",\n  ")+"]", "per exported osFS method: (name, literal resolveLast argument of realpath, host calls made on the resolved path)")
+	o.def("osfsMethods", "List (String × List String × List String)", "[\n  "+strings.Join(rows, ",\n  ")+"]", "per exported osFS method: (name, literal resolveLast arguments of its realpath calls, host calls made on the resolved path)")
 }
 
 // ---- C14 / C15: assembler and janitors ----
